@@ -237,6 +237,22 @@ class C18(runner.Prop):
             ms = m.structure(tree)
             nodes = [n for n in ms.walk() if not n.is_leaf][:8]
             ctx.nontrivial(any(len(n.children) >= 2 for n in nodes))
+            # what the engine flattens as a leaf (None under none_is_leaf, a container the predicate stops at, an
+            # unregistered object) the Python one-level flatten must refuse, as documented (ValueError)
+            for lf in [n for n in ms.walk() if n.is_leaf][:6]:
+                engine_leaf = optree.tree_structure(lf.obj, **kw).is_leaf()
+                try:
+                    optree.tree_flatten_one_level(lf.obj, **kw)
+                    refused = False
+                except ValueError:
+                    refused = True
+                except Exception as e:  # noqa: BLE001
+                    ctx.fail('one_level/leaf_wrong_exception', f'{lf.obj!r}: {type(e).__name__}: {e}')
+                    continue
+                if refused != engine_leaf:
+                    ctx.fail('one_level/leaf_vs_engine', f'{lf.obj!r}: python refused={refused} engine is_leaf={engine_leaf}')
+                if lf.obj is None or isinstance(lf.obj, (list, tuple, dict)) or type(lf.obj) in U.CUSTOM_CLASSES:
+                    ctx.label('one_level:leaf_that_could_be_a_node')
             for n in nodes:
                 obj = n.obj
                 ctx.label(f'node:{n.kind}')
